@@ -10,6 +10,7 @@ import math
 import os
 import re
 import subprocess
+import threading
 import time
 import json
 from fractions import Fraction as Fr
@@ -184,7 +185,7 @@ class Gauleg(Entry):
                     for a, b, kind in [(0.0, 1.0, "plain"), (3.5, -2.25, "rev"), (-7.0, -3.0, "neg"), (1e-5, 3e-5, "tiny"),
                                        (2e-250, 7e-250, "tiny"), (-4e200, 9e200, "huge"), (1e12, -1e12, "rev")]:
                         cs.append({"a": hx(a), "b": hx(b), "n": n, "mom": 0, "family": "interval:" + kind})
-            for a, b, kind in intervals(r, ctx.n(45, 500) if round == 0 else 40):
+            for a, b, kind in intervals(r, ctx.n(45, 300) if round == 0 else 40):
                 n = r.choice([r.randrange(1, 12), r.randrange(1, 61), r.randrange(1, 61 if q else 201)])
                 cs.append({"a": hx(a), "b": hx(b), "n": n, "mom": 0, "family": "interval:" + kind})
         elif self.mode == "moments":
@@ -196,6 +197,8 @@ class Gauleg(Entry):
                     ns = [n for n in ns if n % 2 == 0 or n == 29]
                     k = (len(ns) + 1) // 2
                     ns = [ns[i + j * k] for i in range(k) for j in range(2) if i + j * k < len(ns)]
+                else:   # thorough: all n <= 40, then samples up to 64 (128 moments)
+                    ns = [n for n in ns if n <= 40 or n in (48, 56, 64)]
                 for n in ns:
                     cs.append({"a": hx(-1.0), "b": hx(1.0), "n": n, "mom": 2 * n, "family": "moments 13..%d" % nmax})
         else:
@@ -295,7 +298,7 @@ class Poly(Entry):
         ns = list(range(1, 31)) if round == 0 else [r.randrange(1, 31) for _ in range(10)]
         if round == 0 and ctx.quick():
             ns = [n for n in ns if n <= 10 or n % 2 == 0 or n == 29]
-        per = ctx.n(2, 8)
+        per = ctx.n(2, 5)
         for n in ns:
             for j in range(per):
                 deg = 2 * n - 1 if j % 2 == 0 else r.randrange(0, 2 * n)
@@ -420,7 +423,7 @@ class Func(Entry):
         r = ctx.rng
         cs = []
         names = sorted(_funcs())
-        for a, b, kind in mild_intervals(r, ctx.n(55, 600) if round == 0 else 40):
+        for a, b, kind in mild_intervals(r, ctx.n(55, 350) if round == 0 else 40):
             n = r.choice([r.randrange(1, 10), r.randrange(1, 41), r.randrange(1, 61 if ctx.quick() else 201),
                           r.choice([7, 8, 9, 127, 128, 129, 130, 136, 137] if not ctx.quick() else [7, 8, 9, 15, 16, 17])])
             cs.append({"x1": hx(a), "x2": hx(b), "n": n, "fn": r.choice(names),
@@ -474,7 +477,7 @@ class Data(Entry):
     def cases(self, ctx, round=0):
         r = ctx.rng
         cs = []
-        for _ in range(ctx.n(48, 500) if round == 0 else 30):
+        for _ in range(ctx.n(48, 300) if round == 0 else 30):
             npt = r.choice([2, 3, r.randrange(2, 12), r.randrange(2, 60)])
             spacing = r.choice(["even", "uneven", "clustered", "negative"])
             x0 = r.uniform(-10, 10)
@@ -551,7 +554,7 @@ class Func2(Entry):
         shapes = []
         if round == 0:
             shapes += [(1, 1), (1, 3), (4, 1), (3, 4), (4, 3), (2, 2), (5, 5), (7, 2), (2, 9), (8, 16)]
-        for _ in range(ctx.n(30, 300) if round == 0 else 30):
+        for _ in range(ctx.n(30, 180) if round == 0 else 30):
             shapes.append((r.randrange(1, nmax + 1), r.randrange(1, nmax + 1)))
         for nx, ny in shapes:
             (a, b, k1), (c_, d, k2) = mild_intervals(r, 2)
@@ -622,7 +625,7 @@ class History(Entry):
             cs.append({"n0": None, "ops": [0, 0, None, 5, None], "fn": "sin", "x1": hx(0.0), "x2": hx(2.0), "kind": "func", "family": "history:rejected-count"})
             cs.append({"n0": None, "ops": [None, 4, None], "fn": "cos3", "x1": hx(-1.0), "x2": hx(2.0), "kind": "func", "family": "history:no-count"})
             cs.append({"n0": 0, "ops": [3], "fn": "sin", "x1": hx(0.0), "x2": hx(2.0), "kind": "func", "family": "history:rejected-count"})
-        for _ in range(ctx.n(60, 500) if round == 0 else 30):
+        for _ in range(ctx.n(60, 300) if round == 0 else 30):
             pool = [r.randrange(1, 41) for _i in range(r.randrange(1, 4))]
             n0 = r.choice([None, r.choice(pool)])
             ops = [r.choice([None, None] + pool + [r.randrange(1, 41)]) for _i in range(r.randrange(1, 9))]
@@ -701,6 +704,26 @@ TRUSTED = [
     "reference rules: numpy.polynomial.legendre.leggauss (eigenvalue method) and, thorough tier, a 40-digit mpmath Newton iteration",
     "python harness (harness/props/C17.py), hex-float literal printer, coqc evaluating Exec.v verdict terms",
 ]
+
+
+# The machine is shared (16 cores, no swap): never more than MAX_COQC coqc processes of this check at a
+# time, however many entries / shards are in flight (core.coq_eval starts up to 16 per call).
+MAX_COQC = 14
+_COQC_SEM = threading.BoundedSemaphore(MAX_COQC)
+if not getattr(core.coqc_file, "_c17_limited", False):
+    _coqc_file_orig = core.coqc_file
+
+    def _coqc_file_limited(*a, **k):
+        # rc 137 / -9: coqc was SIGKILLed (the kernel's OOM killer on the shared machine): not a verdict, retry
+        for attempt in range(4):
+            with _COQC_SEM:
+                rc, txt = _coqc_file_orig(*a, **k)
+            if rc not in (137, -9):
+                break
+            time.sleep(5 + 10 * attempt)
+        return rc, txt
+    _coqc_file_limited._c17_limited = True
+    core.coqc_file = _coqc_file_limited
 
 
 def differential_sharded(ctx, preamble, entries, replay_case=None):
